@@ -402,11 +402,42 @@ func launchGuard(c *an.Ctx, s *sched, rule string) {
 		}
 	}
 	if goStage == nil {
-		if fv, ok := s.bodyStage.(*ssa.FreeVar); ok {
-			c.Bad(rule, key, s.launch.Pos(), "the stage goroutine captures the loop variable %q instead of receiving the stage as an argument at go time (go.mod says go 1.16: one variable shared by all iterations)", fv.Name())
-		} else {
+		fv, ok := s.bodyStage.(*ssa.FreeVar)
+		if !ok {
 			c.Und(rule, key, s.launch.Pos(), "cannot find the stage handed to the goroutine")
+			return
 		}
+		// a captured variable is fine when it belongs to one launch: a parameter of a helper that is called
+		// once per stage, or a variable declared inside the loop body (a new one per iteration); the loop's
+		// own range variable is one variable shared by all iterations (go.mod says go 1.16)
+		perLaunch := false
+		for _, src := range an.Sources(s.launch.Call.Value) {
+			mc, isMC := src.(*ssa.MakeClosure)
+			if !isMC {
+				continue
+			}
+			for i, b := range mc.Bindings {
+				if i >= len(s.body.FreeVars) || s.body.FreeVars[i] != fv {
+					continue
+				}
+				switch x := b.(type) {
+				case *ssa.Parameter:
+					perLaunch = s.launchFn != s.loopFn
+				case *ssa.Alloc:
+					if s.launchFn != s.loopFn {
+						perLaunch = true
+					} else if s.inner.Blocks[x.Block()] && x.Block() != s.inner.Header {
+						perLaunch = true
+					}
+				}
+			}
+		}
+		if !perLaunch {
+			c.Bad(rule, key, s.launch.Pos(), "the stage goroutine captures the loop variable %q instead of receiving the stage as an argument at go time (go.mod says go 1.16: one variable shared by all iterations)", fv.Name())
+			return
+		}
+		c.OK(rule, key+":identity", s.launch.Pos(), "the goroutine captures a variable that belongs to this launch only (%s)", fv.Name())
+		checkSchedTable(c, s, rule, map[string]bool{"launch": true})
 		return
 	}
 	for _, fn := range an.WithAnon(s.body) {
@@ -464,44 +495,76 @@ func publishAfterRun(c *an.Ctx, s *sched, rule string) {
 	if !asyncBad {
 		c.OK(rule, key+":sync", body.Pos(), "Runner.Run and nested Schedule are reached by synchronous calls only (%d functions)", len(syncSet))
 	}
+	// on the trace of the goroutine body (helpers of the package inlined, the runner calls opaque): a Done or
+	// Error status is written only after a runner call returned
 	D, E := s.status["Done"], s.status["Error"]
-	n := 0
-	for _, fn := range an.WithAnon(body) {
-		an.EachInstr(fn, func(in ssa.Instruction) {
-			cc, ok := an.IsCallTo(in, fnUpdateStatus)
-			if !ok {
-				return
-			}
-			v, isConst := an.ConstInt(cc.Args[1])
-			if isConst && v != D && v != E {
-				return
-			}
-			n++
-			wkey := fmt.Sprintf("%s:write(%s)", an.Short(fn), statusLabel(s, v))
-			if !isConst {
-				wkey = an.Short(fn) + ":write(?)"
-			}
-			var rcs []ssa.Instruction
-			for _, rc := range s.runnerCalls {
-				rcs = append(rcs, rc)
-			}
-			dominated := false
-			if fn == body {
-				// (alternative runner calls in different branches count together)
-				dominated = an.DominatedBySet(rcs, in)
-			} else {
-				// nested closure (deferred): every way out of the body must have passed the runner call
-				dominated = true
-				for _, ret := range an.Returns(body) {
-					if !an.DominatedBySet(rcs, ret) {
-						dominated = false
-					}
+	isRunner := map[ssa.Instruction]bool{}
+	for _, rc := range s.runnerCalls {
+		isRunner[rc] = true
+	}
+	ex := &an.Explorer{P: c.P, NoReturn: noReturn, MaxDepth: 3,
+		Inline: func(f *ssa.Function) bool {
+			return an.Outer(f).Pkg == s.schedule.Pkg && f != s.schedule && f != s.runStage && an.Outer(f) != an.Outer(body) || f.Parent() == body
+		}}
+	writeSites := map[string]ssa.Instruction{}
+	ex.Effect = func(in ssa.Instruction, st *an.State) string {
+		if isRunner[in] {
+			return "run"
+		}
+		if ci, ok := in.(ssa.CallInstruction); ok {
+			for _, callee := range c.P.Callees(ci.Common()) {
+				if callee == s.runStage || callee == s.schedule {
+					return "run"
 				}
 			}
-			c.Check(dominated, rule, wkey, in.Pos(),
-				"status write follows the return of the runner call",
-				"a finished status is published on a path on which the task has not run to completion (write not dominated by the runner call)")
-		})
+		}
+		cc, ok := an.IsCallTo(in, fnUpdateStatus)
+		if !ok {
+			return ""
+		}
+		lbl := "?"
+		if a := st.Eval(cc.Args[1]); a.K == an.AConst {
+			if v, isInt := an.ConstIntOf(a); isInt {
+				if v != D && v != E {
+					return ""
+				}
+				lbl = statusLabel(s, v)
+			}
+		}
+		e := "write(" + lbl + ")@" + an.Short(in.Parent())
+		writeSites[e] = in
+		return e
+	}
+	outs := ex.Run(body, body.Blocks[0], nil, nil)
+	early := map[string]bool{}
+	seenWrites := map[string]bool{}
+	for _, o := range outs {
+		ran := false
+		for _, e := range o.Effects {
+			if e == "run" {
+				ran = true
+			}
+			if strings.HasPrefix(e, "write(") {
+				seenWrites[e] = true
+				if !ran {
+					early[e] = true
+				}
+			}
+		}
+	}
+	n := 0
+	var wkeys []string
+	for e := range seenWrites {
+		wkeys = append(wkeys, e)
+	}
+	sort.Strings(wkeys)
+	for _, e := range wkeys {
+		n++
+		parts := strings.SplitN(e, "@", 2)
+		wkey := parts[1] + ":" + parts[0]
+		c.Check(!early[e], rule, wkey, writeSites[e].Pos(),
+			"status write follows the return of the runner call",
+			"a finished status is published on a path on which the task has not run to completion (write not preceded by the runner call)")
 	}
 	if n == 0 {
 		c.Und(rule, key+":writes", body.Pos(), "stage goroutine publishes no Done/Error status")
